@@ -32,10 +32,12 @@ theorem ops_atomic_leak_slot : atomicMove_leak_slot_internal = ["fetchAdd", "wsu
 /-- `try_publish_leaked_internal` (`pPublish`): CAS `tail` from `slot_id` to `slot_id.overflowing_add(1)` -/
 theorem ops_atomic_publish : atomicMove_try_publish_leaked_internal = ["cas", "wadd"] := by decide
 
-/-- `try_publish_leaked_internal_index` (`rPub`, `pubReguess32`): the CAS; on success `max(1, previous_tail.overflowing_sub(head))`;
+/-- `try_publish_leaked_internal_index` (`rPub`, `rLen`, `pubReguess32`): the CAS; on success `max(1, previous_tail.overflowing_sub(head))`
+    — once in the verification build's arm (with the `am.r.len` yield point in front of the `head` load), once in the production arm;
     on failure compare the laps (`/ N` twice) and re-guess `slot_index + (reloaded_tail / N) * N` with CHECKED `+` and `*` -/
 theorem ops_atomic_publish_index :
-    atomicMove_try_publish_leaked_internal_index = ["cas", "wadd", "max", "wsub", "div", "div", "cadd", "div", "cmul"] := by decide
+    atomicMove_try_publish_leaked_internal_index =
+      ["cas", "wadd", "max", "wsub", "max", "wsub", "div", "div", "cadd", "div", "cmul"] := by decide
 
 /-- `try_unleak_slot_internal` (`pRecede`): CAS `enqueuer_tail` from `slot_id.overflowing_add(1)` back to `slot_id` -/
 theorem ops_atomic_recede : atomicMove_try_unleak_slot_internal = ["cas", "wadd"] := by decide
